@@ -33,6 +33,7 @@ def main():
     ap.add_argument("prop")
     ap.add_argument("src")
     ap.add_argument("--needs", default="")
+    ap.add_argument("--benign", action="store_true", help="a behaviour-preserving refactoring: demo must pass on both binaries; any check that fires is a false alarm")
     a = ap.parse_args()
     os.makedirs(WORK, exist_ok=True)
     head = subprocess.check_output(["git", "-C", REPO, "rev-parse", "--short", "HEAD"], text=True).strip()
@@ -94,7 +95,11 @@ def main():
             elif rc != 0:
                 fired[pid] = ["CHECK-ERROR rc=%d: %s" % (rc, out[-300:])]
         result["checks_fired"] = fired
-        result["confirmed"] = bool(result["builds"] and tests_ok and rc_o == 0 and rc_c != 0)
+        if a.benign:
+            result["confirmed"] = bool(result["builds"] and tests_ok and rc_o == 0 and rc_c == 0)
+            result["false_alarms"] = fired
+        else:
+            result["confirmed"] = bool(result["builds"] and tests_ok and rc_o == 0 and rc_c != 0)
         result["caught_by_own_property"] = a.prop in fired
         result["caught_by_any"] = bool(fired)
     except AssertionError as e:
@@ -104,7 +109,7 @@ def main():
         shutil.rmtree(d, ignore_errors=True)
     print(json.dumps(result, indent=1)[:3000])
     if result.get("confirmed"):
-        dst = os.path.join(VERIF, "seeded", a.seed_id)
+        dst = os.path.join(VERIF, "selftest", "refactorings", a.seed_id) if a.benign else os.path.join(VERIF, "seeded", a.seed_id)
         os.makedirs(dst, exist_ok=True)
         for f in os.listdir(a.src):
             p = os.path.join(a.src, f)
@@ -114,7 +119,8 @@ def main():
                 shutil.copytree(p, os.path.join(dst, f), dirs_exist_ok=True)
         notes = open(os.path.join(a.src, "notes.md")).read() if os.path.exists(os.path.join(a.src, "notes.md")) else ""
         meta = {
-            "id": a.seed_id, "breaks_property": a.prop, "base_commit": head,
+            "id": a.seed_id, ("targets_property_code" if a.benign else "breaks_property"): a.prop, "base_commit": head,
+            "kind": "behaviour-preserving refactoring (all checks must stay silent)" if a.benign else "property-breaking change",
             "needs_to_manifest": a.needs or notes[:600],
             "what_was_run": [
                 "copy of /repo HEAD (%s) + git apply patch.diff; cargo build --offline: ok" % head,
